@@ -1,6 +1,6 @@
 (* Fragment3.v - the fragment F3 of the language (FUNCTIONS) for which compiler correctness
    (property C01) and the call facts of properties C10 / C12 are proved in
-   proofs/CompileCorrectE.v .. H.v.  Definitions only.
+   proofs/CompileCorrectE.v .. I.v.  Definitions only.
 
    F3 = F2 + function literals (anonymous anywhere an expression may stand, named ones as whole
    statements: DESIGN 4.3 item 13), parameters, local variables in function bodies (block scopes,
@@ -28,7 +28,7 @@
      discrepancy between Sem.v and the machine, not listed in DESIGN 4.3: Sem compares closure
      identities (every evaluation of a function literal creates a new one), the machine compares
      (entry point, number of locals), so two values of the SAME literal are equal for the machine
-     and different for Sem (program: CompileCorrectH.ex_funeq). *)
+     and different for Sem (program: CompileCorrectI.ex_funeq, Example ex_funeq_differs). *)
 From NL.Model Require Export VM.
 From NL.Spec Require Export Sem Fragment Fragment2.
 Open Scope Z_scope.
